@@ -502,6 +502,15 @@ class Normalizer:
                     break
             if self.propagated:
                 self._unroll_new_loops(node)      # a loop over a table that was held in a temporary
+        _split_tuple_assignments(node)
+        if snap is not None and not os.environ.get("TYVERIF_NO_LOCALS"):
+            for _ in range(2):
+                p_ = propagate_new_temporaries(node, snap)
+                r_ = rename_back(node, snap)
+                self.propagated += p_
+                self.renamed.update(r_)
+                if not p_ and not r_:
+                    break
         if not os.environ.get("TYVERIF_NO_IFEXP"):
             _expand_ifexp_statements(node, self.known)
         if self.flatten:
@@ -512,6 +521,17 @@ class Normalizer:
                 child._parent = parent_
         node._parent = getattr(self.func.node, "_parent", None)
         return node
+
+    @staticmethod
+    def _bind_receiver(stmts, fn, drop, call):
+        """the dropped first parameter (self / cls) of an inlined method stands for the receiver of the call"""
+        if stmts is None or not drop or not fn.args.args:
+            return stmts
+        first = fn.args.args[0].arg
+        recv = call.func.value if isinstance(call.func, ast.Attribute) else None
+        if recv is None or (isinstance(recv, ast.Name) and recv.id == first):
+            return stmts
+        return [_Subst({first: recv}).visit(s_) for s_ in stmts]
 
     def _hoist_nested(self, st, root):
         """[statements of the inlined helper..., st with the call replaced by the temporary] or None"""
@@ -541,6 +561,7 @@ class Normalizer:
             tmp = "_h%d_v" % self.counter
             asg = ast.copy_location(ast.Assign(targets=[ast.Name(id=tmp, ctx=ast.Store())], value=n), st)
             new = _inline_stmt(asg, n, sh, self.counter)
+            new = self._bind_receiver(new, fn, drop, n)
             if new is None:
                 continue
             target = n
@@ -607,11 +628,12 @@ class Normalizer:
                     if h is not None:
                         fn, drop = h
                         eh = _expr_helper(fn, drop)
-                        if eh is None or isinstance(st, ast.Expr):
+                        if eh is None or isinstance(st, ast.Expr) or _inline_expr(call, eh) is None:
                             sh = _stmt_helper(fn, drop)
                             if sh is not None:
                                 self.counter += 1
                                 new = _inline_stmt(st, call, sh, self.counter)
+                                new = self._bind_receiver(new, fn, drop, call)
                                 if new is not None:
                                     self.inlined.append(fn.name)
                                     out.extend(new)
@@ -652,6 +674,8 @@ class Normalizer:
                 new = _inline_expr(n, eh)
                 if new is None:
                     return n
+                got = norm_self._bind_receiver([ast.Expr(value=new)], fn, drop, n)
+                new = got[0].value
                 norm_self.inlined.append(fn.name)
                 changed = True
                 return ast.copy_location(new, n)
@@ -982,6 +1006,35 @@ def _expand_ifexp_statements(fnode, known=()):
                 new = ast.If(test=clone(v.test), body=rec([a]), orelse=rec([b]))
                 out.append(ast.copy_location(new, st))
                 continue
+            out.append(st)
+        return out
+    fnode.body = rec(fnode.body)
+
+
+def _split_tuple_assignments(fnode):
+    """`a, b = x, y` with NEW-looking independent sides -> `a = x; b = y` (only when no target is read by any value)"""
+    def rec(stmts):
+        out = []
+        for st in stmts:
+            if isinstance(st, (ast.FunctionDef, ast.AsyncFunctionDef, ast.ClassDef)):
+                out.append(st)
+                continue
+            for fld in ("body", "orelse", "finalbody"):
+                sub = getattr(st, fld, None)
+                if isinstance(sub, list) and sub and isinstance(sub[0], ast.stmt):
+                    setattr(st, fld, rec(sub))
+            if isinstance(st, ast.Try):
+                for h in st.handlers:
+                    h.body = rec(h.body)
+            if isinstance(st, ast.Assign) and len(st.targets) == 1 and isinstance(st.targets[0], (ast.Tuple, ast.List)) \
+                    and isinstance(st.value, (ast.Tuple, ast.List)) and len(st.targets[0].elts) == len(st.value.elts) \
+                    and all(isinstance(t, ast.Name) for t in st.targets[0].elts) and not any(isinstance(v, ast.Starred) for v in st.value.elts):
+                tnames = {t.id for t in st.targets[0].elts}
+                reads = {n.id for v in st.value.elts for n in ast.walk(v) if isinstance(n, ast.Name)}
+                if not (tnames & reads) and getattr(st, "_inlined", True):
+                    for t, v in zip(st.targets[0].elts, st.value.elts):
+                        out.append(ast.copy_location(ast.Assign(targets=[t], value=v), st))
+                    continue
             out.append(st)
         return out
     fnode.body = rec(fnode.body)
